@@ -338,7 +338,11 @@ def r9_line_separator(cx):
     cx.rule("C11.R9", "the loader splits persisted content on the separator the writer joined it with", floor=2)
     sf = cx.repo.module(SF)
     wr = sf.func("ContentProvider.write", "C11.R9")
-    joins = [x for x in ast.walk(wr) if isinstance(x, ast.Call) and call_attr(x) == "join" and "_clean_content" in U(x)]
+    def _whole_cleaned(e_):
+        # the cleaned list itself (directly or through a single-assignment local), not a slice or a block of it
+        e_ = trace(e_, wr) if isinstance(e_, ast.Name) else e_
+        return isinstance(e_, ast.Call) and call_attr(e_) == "_clean_content"
+    joins = [x for x in ast.walk(wr) if isinstance(x, ast.Call) and call_attr(x) == "join" and x.args and _whole_cleaned(x.args[0])]
     ok = len(joins) == 1 and const_str(joins[0].func.value) == "\n"
     cx.require(ok, joins[0] if joins else wr, "the writer joins the cleaned lines with a single line feed", construct=short(joins[0]) if joins else "(no join)")
     encs = [x for x in ast.walk(wr) if isinstance(x, ast.Call) and call_attr(x) == "encode"]
